@@ -1246,7 +1246,7 @@ fn explore_tree(tree: &Tree, inst: &str, sc: &uni::Scratch, tier: Tier, shard: u
 	let n_valid = (0..tree.blocks.len()).filter(|i| tree.valid(*i).is_ok()).count();
 	let mut inv = Inv01 { inst: inst.to_string(), thorough: tier == Tier::Thorough, n_valid, seen: HashSet::new(), cache: HashMap::new() };
 	let mut ex = Explorer::new(tree, sc, Options::NONE, inst);
-	ex.live_check = 2;
+	ex.live_check = tier.pick(1, 2);
 	ex.shard = (shard, n);
 	let evs: Vec<Ev> = (0..tree.blocks.len()).filter(|i| tree.valid(*i).is_ok()).map(Ev::B).collect();
 	let mut probes: Vec<Ev> = (0..tree.blocks.len()).filter(|i| tree.valid(*i).is_err()).map(Ev::B).collect();
